@@ -144,8 +144,8 @@ def r_prealloc(prog, R, rid="R-C14-PREALLOC"):
 SETTLE_CALLS = ("ares_send_query", "end_query", "ares_free_query", "ares_requeue_query", "ares_append_requeue")
 
 
-def r_requeue(prog, R):
-    r = R.rule("R-C14-REQUEUE", "a request taken off its connection and timer is, on every path, re-sent, parked in the requeue array (the insertion succeeded) or completed; "
+def r_requeue(prog, R, rid="R-C14-REQUEUE"):
+    r = R.rule(rid, "a request taken off its connection and timer is, on every path, re-sent, parked in the requeue array (the insertion succeeded) or completed; "
                "every parked request is re-sent: the flush loop ends only when the array is empty", floor=4,
                analysis="path search from every unlink with result-edge refinement + loop-exit vocabulary")
     n = 0
@@ -240,6 +240,20 @@ def r_requeue(prog, R):
                     preds_ok = bid in claim_blocks or (not ra.blocks[bid].els and all(p in claim_blocks for p in ra.blocks[bid].preds))
                     if not preds_ok:
                         bad = bid
+            # and the flush cannot be bypassed: from every call that may park a request (it is handed &requeue) every path to the exit
+            # evaluates the flush loop's condition
+            arr = None
+            for b0, i0, c0 in ra.calls():
+                for a in c0.get("args", []):
+                    a2 = strip(a)
+                    if a2 is not None and a2.get("k") == "un" and a2["op"] == "&" and is_var(strip(a2["e"])) and "requeue" in strip(a2["e"])["n"]:
+                        arr = strip(a2["e"])["n"]
+                        t = can_reach_exit_avoiding(ra, b0, i0, lambda e2, arr=arr: e2["k"] == "call" and e2["e"].get("callee") in ("ares_array_len", "ares_array_claim_at", "ares_array_remove_first") and any(x is not None and is_var(strip(x), arr) for x in e2["e"].get("args", [])))
+                        k2 = "read_answers cannot leave without flushing what %s parked" % (c0.get("callee") or "a callee")
+                        if t is not None:
+                            r.viol(k2, ra.name, ra.loc(c0["ln"]), "read_answers can return after %s() may have parked requests in '%s' without running the loop that re-sends them (the array is dropped): those requests were taken off their connection and timer and never complete" % (c0.get("callee"), arr), trail=trail_lines(ra, t))
+                        else:
+                            r.ok(k2, ra.loc(c0["ln"]))
             if bad is not None:
                 blk = ra.blocks[bad]
                 r.viol(k, ra.name, ra.loc((blk.term or {}).get("ln", ra.ln)), "the loop that re-sends the parked requests can be left while requests are still parked (an exit other than 'array empty' / 'claim failed'): the remaining requests were already taken off their connection and timer and are dropped with the array -- they never complete")
